@@ -22,7 +22,7 @@
 EXTENDS Sequences, Integers, FiniteSets, TLC
 
 None == "none"
-ParseError == "error"
+ParseError == [os |-> "!", arch |-> "", var |-> "", ver |-> "", osf |-> ""]      \* not a platform string
 
 ----------------------------------------------------------------------------
 (* platforms *)
@@ -198,7 +198,7 @@ SeedA == IV("ocii", <<En("a64", "ocim", "linux/amd64", "", ""), En("arm64", "oci
                       En("w17", "ocim", "windows/amd64;v=10.0.17763.5458;of=win32k", "", ""),
                       En("att", "ocim", "unknown/unknown", "vnd.docker.reference.type=attestation-manifest", "data")>>,
             "org.example.keep=1", "", "")
-SeedD == IV("dkl", <<En("d64", "dkm", "linux/amd64", "", ""), En("d390", "dkm", "linux/s390x", "", "")>>, "", "", "")
+SeedD == IV("dkl", <<En("d390", "dkm", "linux/s390x", "", ""), En("d64", "dkm", "linux/amd64", "", "")>>, "", "", "")
 SeedDup == IV("ocii", <<En("a64", "ocim", "linux/amd64", "a=1", ""), En("arm64", "ocim", "linux/arm64", "", ""),
                         En("a64", "ocim", "linux/amd64", "a=2", ""), En("a64", "ocim", "linux/amd64;v=5.1", "", ""),
                         En("armv7", "ocim", "", "", "")>>, "", "application/vnd.example.idx", "")
